@@ -13,6 +13,9 @@ import (
 	ocr2keepers "github.com/smartcontractkit/chainlink-automation/pkg/v3"
 	simutil "github.com/smartcontractkit/chainlink-automation/tools/simulator/util"
 	common "github.com/smartcontractkit/chainlink-common/pkg/types/automation"
+	"github.com/smartcontractkit/libocr/commontypes"
+	"github.com/smartcontractkit/libocr/offchainreporting2plus/ocr3types"
+	ocr2plustypes "github.com/smartcontractkit/libocr/offchainreporting2plus/types"
 )
 
 // c04Perf is one agreed performable in generator form.
@@ -37,6 +40,15 @@ type c04Case struct {
 	Err bool    `json:"err"`
 }
 
+// c04WorkID: the injected work-id generator of the C04 instances.  Work ids are the integrator's business: nothing in
+// Reports may rely on a conditional upkeep having one unit of work only.
+func c04WorkID(id common.UpkeepIdentifier, trg common.Trigger) string {
+	if trg.LogTriggerExtension == nil && trg.BlockNumber != 10 {
+		return fmt.Sprintf("%s@%d", simutil.UpkeepWorkID(id, trg), trg.BlockNumber)
+	}
+	return simutil.UpkeepWorkID(id, trg)
+}
+
 func c04Result(p c04Perf) common.CheckResult {
 	var r common.CheckResult
 	if p.Upk >= 1000 {
@@ -44,10 +56,12 @@ func c04Result(p c04Perf) common.CheckResult {
 		ext := &common.LogTriggerExtension{TxHash: Hash32("tx", p.Log), Index: uint32(p.Log), BlockHash: Hash32("lb", p.Log), BlockNumber: 7}
 		r.Trigger = common.NewLogTrigger(10, Hash32("blk", 10), ext)
 	} else {
+		// a conditional upkeep checked at block 10 + Log: with the harness's work-id generator (which, unlike the
+		// simulator's, takes the check block into account) that is another unit of work of the same upkeep
 		r.UpkeepID = UpkeepID(0, p.Upk)
-		r.Trigger = common.NewTrigger(10, Hash32("blk", 10))
+		r.Trigger = common.NewTrigger(common.BlockNumber(10+p.Log), Hash32("blk", 10+p.Log))
 	}
-	r.WorkID = simutil.UpkeepWorkID(r.UpkeepID, r.Trigger)
+	r.WorkID = c04WorkID(r.UpkeepID, r.Trigger)
 	r.Eligible = true
 	r.GasAllocated = p.Gas
 	r.PerformData = []byte{1, 2, 3}
@@ -120,6 +134,9 @@ func c04Boundary() []c04Case {
 	cs = append(cs, c04Case{Family: "previous-round-over-limit-gas-left", Batch: 10, Limit: L, Overhead: O,
 		Prev:  []c04Perf{{Upk: 1, Gas: 900}},
 		Perfs: []c04Perf{{Upk: 2, Gas: 200}, {Upk: 3, Gas: 200}}})
+	// the same conditional upkeep under two work ids (checked at two blocks) inside one report window
+	cs = append(cs, c04Case{Family: "conditional-upkeep-twice-under-two-work-ids", Batch: 10, Limit: L, Overhead: O,
+		Perfs: []c04Perf{{Upk: 7, Log: 1, Gas: 10}, {Upk: 8, Gas: 10}, {Upk: 7, Log: 2, Gas: 10}, {Upk: 9, Gas: 10}, {Upk: 8, Log: 3, Gas: 10}}})
 	// each default on its own: only the zero field is replaced (batch 1 / limit 5.3M / overhead 300k)
 	cs = append(cs, c04Case{Family: "config-zero-batch-only", Batch: 0, Limit: L, Overhead: O, Perfs: small(4)})
 	cs = append(cs, c04Case{Family: "config-zero-limit-only", Batch: 5, Limit: 0, Overhead: O, Perfs: []c04Perf{{Upk: 1, Gas: 2650000 - uint64(O)}, {Upk: 2, Gas: 2650000 - uint64(O)}, {Upk: 3, Gas: 1}}})
@@ -151,6 +168,9 @@ func c04Random(r *Rng) c04Case {
 		case 0, 1, 2: // log upkeep from a small pool -> repeated upkeep ids
 			logNo++
 			p = c04Perf{Upk: 1000 + r.Intn(3), Log: logNo}
+		case 3: // a conditional upkeep from a small pool, checked at another block -> repeated ids among conditionals too
+			logNo++
+			p = c04Perf{Upk: 900 + r.Intn(3), Log: logNo}
 		default:
 			p = c04Perf{Upk: i + 1}
 		}
@@ -194,7 +214,7 @@ func c04Random(r *Rng) c04Case {
 func runC04Case(t *testing.T, c *c04Case) {
 	nd := NewNode(t, NodeOpts{
 		Offchain: fmt.Sprintf(`{"maxUpkeepBatchSize":%d,"gasLimitPerReport":%d,"gasOverheadPerUpkeep":%d}`, c.Batch, c.Limit, c.Overhead),
-		N:        4, F: 1,
+		N:        4, F: 1, WorkID: c04WorkID,
 	})
 	defer nd.Plugin.Close()
 	results := make([]common.CheckResult, len(c.Perfs))
@@ -217,6 +237,15 @@ func runC04Case(t *testing.T, c *c04Case) {
 		}
 		nd.Enc.Reset(0)
 		_, _ = nd.Plugin.Reports(context.Background(), 6, praw)
+		// ... and an attempt at sequence number 7 that agreed on those results and was not committed (the round is
+		// repeated in the next epoch): Reports(7, raw) is a function of raw alone
+		if ob, oerr := (ocr2keepers.AutomationObservation{Performable: prev}).Encode(); oerr == nil {
+			var aos []ocr2plustypes.AttributedObservation
+			for i := 0; i < 3; i++ {
+				aos = append(aos, ocr2plustypes.AttributedObservation{Observation: ob, Observer: commontypes.OracleID(i)})
+			}
+			_, _ = nd.Plugin.Outcome(context.Background(), ocr3types.OutcomeContext{SeqNr: 7}, nil, aos)
+		}
 	}
 	nd.Enc.Reset(c.FailAt)
 	reports, rerr := nd.Plugin.Reports(context.Background(), 7, raw)
